@@ -197,7 +197,11 @@ func (w *World) execPointCall(c *pointCall) {
 	if po2.panicked {
 		out = "panic"
 	}
-	w.r.Hist("%d %s alias[%s] -> %s callerslices=%v", w.step, c.desc, pat, out, !spareTouched)
+	outFresh := enc1
+	if po1.panicked {
+		outFresh = "panic"
+	}
+	w.r.Hist("%d %s alias[%s] -> %s callerslices=%v fresh-receiver-distinct-operands -> %s", w.step, c.desc, pat, out, !spareTouched, outFresh)
 	if spareTouched {
 		w.r.Violate("C18", "operand-modified", c.name+":argument-slices", w.step, "%s: the call wrote into the caller's argument slices (reordered their elements or used their spare capacity)", c.desc)
 	}
